@@ -149,6 +149,10 @@ func TestVerifC08(t *testing.T) {
 		// three / four idle, healthy connections; the server closes some of them one by one in any order; then one more query
 		c08Scenario("reuse-c3+1-idle-pool-closed-in-any-order", tOpt{Kind: "reuse", Callers: 4, StageTwo: 1, Srv: srvOpt{AnswerAll: true}, CloseIdleOrder: true, FreezeStage1: true}, 1, true),
 		c08Scenario("reuse-c4+1-idle-pool-closed-in-any-order", tOpt{Kind: "reuse", Callers: 5, StageTwo: 1, Srv: srvOpt{AnswerAll: true}, CloseIdleOrder: true, FreezeStage1: true}, 1, true),
+		// the first dial is slow (4 s); the connection goes stale; the next query has 3 s left: a fresh dial
+		// (fast or slow) is its due - its failure needs a reason of its own, not the cost of an earlier dial
+		c08Scenario("pipeline-tcp-c1+1-slowdial-then-stale", tOpt{Kind: "pipeline-tcp", Callers: 2, StageTwo: 1, DialMenu: []int{5, 0}, Srv: srvOpt{CloseBudget: 1, CloseEveryAnswer: true, ResetOnWrite: true, SilentDeath: true}, CtxMode: []int{0, 1}, FreezeStage1: true}, d, false),
+		c08Scenario("pipeline-udp-c1+1-slowdial-then-stale-rst", tOpt{Kind: "pipeline-udp", Callers: 2, StageTwo: 1, DialMenu: []int{5, 0}, Srv: srvOpt{CloseBudget: 1, CloseEveryAnswer: true, ResetOnWrite: true, SilentDeath: true}, CtxMode: []int{0, 1}, FreezeStage1: true}, d2, false),
 		c08Scenario("reuse-seq3-kill", tOpt{Kind: "reuse", Callers: 1, Seq: 3, Srv: kill}, d, false),
 		// a slow dial (4 s); a query queued behind it gives up after 3 s; two more join the queue before the
 		// connection is up: limits of queue and connection are equal, nobody may fail but the impatient one
